@@ -1024,4 +1024,528 @@ theorem getComp_signed' (db : List Entry) (k : Str) (hs : signed k = true) :
     simp only [getComp, hs, if_true]
     cases parseFloat (c :: r) <;> rfl
 
+/-! ## error classes of the resolver (C09: errors are of the `ValueError` family) -/
+
+/-- the Python exception class is `ValueError` or a subclass of it -/
+def _root_.Formula.Err.isValueErrorFamily : Err → Bool
+  | .unknownMod | .unknownModMass | .invalidDeltaMass | .invalidComp | .deltaMassComp | .invalidModMass
+  | .invalidChemFormula | .invalidGlycanFormula | .valueError => true
+  | .typeError | .keyError | .hang | .special => false
+
+abbrev VE (e : Err) : Prop := e.isValueErrorFamily = true
+
+/-- close a goal `VE e` from `h : Except.error <literal> = Except.error e` -/
+macro "err_lit " h:ident : tactic =>
+  `(tactic| (simp only [Except.error.injEq] at $h:ident; subst $h:ident; rfl))
+
+theorem splitChem_err : ∀ (s : Str) (b : Bool) (acc : Str) (e : Err), splitChem b acc s = .error e → VE e := by
+  intro s
+  induction s with
+  | nil =>
+    intro b acc e h
+    cases b
+    · simp [splitChem] at h
+    · simp only [splitChem, Except.error.injEq] at h; subst h; rfl
+  | cons c r ih =>
+    intro b acc e h
+    cases b
+    · simp only [splitChem] at h
+      split at h
+      · split at h
+        · cases h
+        · rename_i e' he'
+          simp only [Except.error.injEq] at h; subst h
+          exact ih _ _ _ he'
+      · split at h
+        · simp only [Except.error.injEq] at h; subst h; rfl
+        · exact ih _ _ _ h
+    · simp only [splitChem] at h
+      split at h
+      · split at h
+        · cases h
+        · rename_i e' he'
+          simp only [Except.error.injEq] at h; subst h
+          exact ih _ _ _ he'
+      · exact ih _ _ _ h
+
+theorem parseCondensed_err (s : Str) (e : Err) (h : parseCondensed s = .error e) : VE e := by
+  unfold parseCondensed at h
+  simp only at h
+  split at h
+  · cases h
+  split at h
+  · err_lit h
+  split at h
+  · err_lit h
+  split at h
+  · err_lit h
+  · cases h
+
+theorem parseIsotope_err (s : Str) (e : Err) (h : parseIsotope s = .error e) : VE e := by
+  unfold parseIsotope at h
+  split at h
+  · cases h
+  · split at h
+    · exact parseCondensed_err _ _ h
+    · simp only at h
+      split at h
+      · err_lit h
+      split at h
+      · err_lit h
+      · cases h
+
+theorem parseComponent_err (s : Str) (e : Err) (h : parseComponent s = .error e) : VE e := by
+  unfold parseComponent at h
+  split at h
+  · exact parseIsotope_err _ _ h
+  · exact parseCondensed_err _ _ h
+
+theorem parseComponents_err : ∀ (l : List Str) (e : Err), parseComponents l = .error e → VE e := by
+  intro l
+  induction l with
+  | nil => intro e h; cases h
+  | cons c r ih =>
+    intro e h
+    simp only [parseComponents] at h
+    split at h
+    · rename_i e' he'
+      simp only [Except.error.injEq] at h; subst h
+      exact parseComponent_err _ _ he'
+    · split at h
+      · rename_i e' he'
+        simp only [Except.error.injEq] at h; subst h
+        exact ih _ he'
+      · cases h
+
+/-- `parse_chem_formula(s)` (no separator): only `ValueError` (unclosed bracket) or `InvalidChemFormulaError` -/
+theorem parseChem_err (s : Str) (e : Err) (h : parseChem s [] = .error e) : VE e := by
+  unfold parseChem at h
+  simp only [bne_self_eq_false, Bool.false_eq_true, if_false] at h
+  split at h
+  · rename_i e' he'
+    simp only [Except.error.injEq] at h; subst h
+    exact splitChem_err _ _ _ _ he'
+  · split at h
+    · rename_i e' he'
+      simp only [Except.error.injEq] at h; subst h
+      exact parseComponents_err _ _ he'
+    · cases h
+
+
+/-- table defect 1: an element row (not an isotope key) without an average mass — the only source of `KeyError` -/
+def KeyErrSrc (M : MassTable) : Prop := ∃ el ∈ M.elems, el.avg = none ∧ isIsoKey el.sym = false
+/-- table defect 2: a monosaccharide entry without mono mass, average mass or composition — the only source of `TypeError` -/
+def TypeErrSrc (mono : List Entry) : Prop := ∃ e ∈ mono, e.mono = none ∨ e.avg = none ∨ e.comp = none
+/-- table defect 3: an empty monosaccharide name or synonym — the only source of an endless loop -/
+def HangSrc (mono : List Entry) : Prop := [] ∈ namesSorted mono
+
+/-- an error of the resolver: of the `ValueError` family, or one of the three table defects, located -/
+def ErrOK (T : Tables) (e : Err) : Prop :=
+  VE e ∨ (e = .typeError ∧ TypeErrSrc T.mono) ∨ (e = .keyError ∧ KeyErrSrc T.mass) ∨ (e = .hang ∧ HangSrc T.mono)
+
+theorem ErrOK.ve {T : Tables} {e : Err} (h : VE e) : ErrOK T e := .inl h
+
+theorem elemMass_err (T : Tables) (mono : Bool) (k : Str) (e : Err) (h : elemMass T.mass mono k = .error e) :
+    ErrOK T e := by
+  unfold elemMass at h
+  split at h
+  · split at h
+    · cases h
+    split at h
+    · cases h
+    split at h
+    · cases h
+    · exact .ve (by err_lit h)
+  · rename_i el hel
+    split at h
+    · cases h
+    · rename_i hcond
+      split at h
+      · cases h
+      · rename_i havg
+        simp only [Except.error.injEq] at h; subst h
+        refine .inr (.inr (.inl ⟨rfl, el, ?_, havg, ?_⟩))
+        · exact List.mem_of_find?_eq_some hel
+        · have := List.find?_some hel
+          simp only [beq_iff_eq] at this
+          rw [this]
+          simp only [Bool.or_eq_true, not_or, Bool.not_eq_true] at hcond
+          exact hcond.2
+
+theorem chemMassComp_err (T : Tables) (mono : Bool) : ∀ (c : Comp) (e : Err),
+    chemMassComp T.mass mono c = .error e → ErrOK T e := by
+  intro c
+  induction c with
+  | nil => intro e h; cases h
+  | cons kv r ih =>
+    intro e h
+    obtain ⟨k, v⟩ := kv
+    simp only [chemMassComp] at h
+    split at h
+    · rename_i e' he'
+      simp only [Except.error.injEq] at h; subst h
+      exact elemMass_err T mono k _ he'
+    · split at h
+      · rename_i e' he'
+        simp only [Except.error.injEq] at h; subst h
+        exact ih _ he'
+      · cases h
+
+theorem chemMassStr_err (T : Tables) (mono : Bool) (s : Str) (e : Err)
+    (h : chemMassStr T.mass mono s [] = .error e) : ErrOK T e := by
+  unfold chemMassStr at h
+  split at h
+  · rename_i e' he'
+    simp only [Except.error.injEq] at h; subst h
+    exact .ve (parseChem_err _ _ he')
+  · exact chemMassComp_err T mono _ _ h
+
+/-! ### glycans -/
+
+theorem lookupLast_mem (key : Entry → Str) (s : Str) : ∀ (l : List Entry) (e : Entry),
+    lookupLast key s l = some e → e ∈ l := by
+  intro l
+  induction l with
+  | nil => intro e h; cases h
+  | cons a r ih =>
+    intro e h
+    simp only [lookupLast] at h
+    split at h
+    · rename_i r' hr'
+      simp only [Option.some.injEq] at h; subst h
+      exact List.mem_cons_of_mem _ (ih _ hr')
+    · split at h
+      · simp only [Option.some.injEq] at h; subst h; simp
+      · cases h
+
+theorem lookupSyn_mem (s : Str) : ∀ (l : List Entry) (e : Entry), lookupSyn s l = some e → e ∈ l := by
+  intro l
+  induction l with
+  | nil => intro e h; cases h
+  | cons a r ih =>
+    intro e h
+    simp only [lookupSyn] at h
+    split at h
+    · rename_i r' hr'
+      simp only [Option.some.injEq] at h; subst h
+      exact List.mem_cons_of_mem _ (ih _ hr')
+    · split at h
+      · simp only [Option.some.injEq] at h; subst h; simp
+      · cases h
+
+theorem monoEntry_mem (mono : List Entry) (k : Str) (e : Entry) (h : monoEntry mono k = some e) : e ∈ mono := by
+  unfold monoEntry at h
+  split at h
+  · rename_i e' he'
+    simp only [Option.some.injEq] at h; subst h
+    exact lookupLast_mem _ _ _ _ he'
+  · exact lookupSyn_mem _ _ _ h
+
+theorem monoLookup_mem (mono : List Entry) (k : Str) (e : Entry) (h : monoLookup mono k = some e) : e ∈ mono := by
+  unfold monoLookup at h
+  split at h
+  · rename_i e' he'
+    simp only [Option.some.injEq] at h; subst h
+    exact lookupLast_mem _ _ _ _ he'
+  · split at h
+    · rename_i e' he'
+      simp only [Option.some.injEq] at h; subst h
+      exact lookupLast_mem _ _ _ _ he'
+    · exact lookupSyn_mem _ _ _ h
+
+theorem parseGlycanAux_err (T : Tables) : ∀ (s : Str) (k : Nat) (d : Comp) (e : Err),
+    parseGlycanAux (namesSorted T.mono) k s d = .error e → ErrOK T e := by
+  intro s
+  induction s with
+  | nil => intro k d e h; cases k <;> cases h
+  | cons c r ih =>
+    intro k d e h
+    cases k with
+    | succ k => simp only [parseGlycanAux] at h; exact ih _ _ _ h
+    | zero =>
+      simp only [parseGlycanAux] at h
+      split at h
+      · exact .ve (by err_lit h)
+      · rename_i nm hnm
+        split at h
+        · rename_i hemp
+          simp only [Except.error.injEq] at h; subst h
+          refine .inr (.inr (.inr ⟨rfl, ?_⟩))
+          have hm := List.mem_of_find?_eq_some hnm
+          simp only [List.isEmpty_iff] at hemp
+          rw [hemp] at hm
+          exact hm
+        · split at h
+          · exact .ve (by err_lit h)
+          · exact ih _ _ _ h
+
+theorem parseGlycan_err (T : Tables) (s : Str) (e : Err) (h : parseGlycan T.mono s [] = .error e) : ErrOK T e := by
+  unfold parseGlycan at h
+  split at h
+  · cases h
+  · simp only [bne_self_eq_false, Bool.false_eq_true, if_false] at h
+    exact parseGlycanAux_err T _ _ _ _ h
+
+theorem glycanMassDict_err (T : Tables) (isMono : Bool) : ∀ (g : Comp) (e : Err),
+    glycanMassDict T.mono isMono g = .error e → ErrOK T e := by
+  intro g
+  induction g with
+  | nil => intro e h; cases h
+  | cons kv r ih =>
+    intro e h
+    obtain ⟨k, v⟩ := kv
+    simp only [glycanMassDict] at h
+    split at h
+    · exact .ve (by err_lit h)
+    · rename_i en hen
+      split at h
+      · rename_i hm
+        simp only [Except.error.injEq] at h; subst h
+        refine .inr (.inl ⟨rfl, en, monoEntry_mem _ _ _ hen, ?_⟩)
+        cases isMono
+        · simp only [Bool.false_eq_true, if_false] at hm; exact .inr (.inl hm)
+        · simp only [if_true] at hm; exact .inl hm
+      · split at h
+        · rename_i e' he'
+          simp only [Except.error.injEq] at h; subst h
+          exact ih _ he'
+        · cases h
+
+theorem glycanMassStr_err (T : Tables) (isMono : Bool) (s : Str) (e : Err)
+    (h : glycanMassStr T.mono isMono s = .error e) : ErrOK T e := by
+  unfold glycanMassStr at h
+  split at h
+  · rename_i e' he'
+    simp only [Except.error.injEq] at h; subst h
+    exact parseGlycan_err T _ _ he'
+  · exact glycanMassDict_err T isMono _ _ h
+
+theorem glycanCompDict_err (T : Tables) : ∀ (g acc : Comp) (e : Err),
+    glycanCompDict T.mono g acc = .error e → ErrOK T e := by
+  intro g
+  induction g with
+  | nil => intro acc e h; cases h
+  | cons kv r ih =>
+    intro acc e h
+    obtain ⟨k, v⟩ := kv
+    simp only [glycanCompDict] at h
+    split at h
+    · exact .ve (by err_lit h)
+    · rename_i en hen
+      split at h
+      · rename_i hc
+        simp only [Except.error.injEq] at h; subst h
+        exact .inr (.inl ⟨rfl, en, monoEntry_mem _ _ _ hen, .inr (.inr hc)⟩)
+      · split at h
+        · rename_i e' he'
+          simp only [Except.error.injEq] at h; subst h
+          exact .ve (parseChem_err _ _ he')
+        · exact ih _ _ h
+
+theorem glycanCompStr_err (T : Tables) (s : Str) (e : Err)
+    (h : glycanCompStr T.mono s = .error e) : ErrOK T e := by
+  unfold glycanCompStr at h
+  split at h
+  · rename_i e' he'
+    simp only [Except.error.injEq] at h; subst h
+    exact parseGlycan_err T _ _ he'
+  · exact glycanCompDict_err T _ _ _ h
+
+
+/-! ### the branches of `_parse_mod_mass` / `_parse_mod_comp` -/
+
+theorem glycanMassProforma_err (T : Tables) (s : Str) (mono : Bool) (e : Err)
+    (h : glycanMassProforma T s mono = .error e) : ErrOK T e := by
+  unfold glycanMassProforma at h
+  simp only at h
+  split at h
+  · split at h <;> cases h
+  · split at h
+    · cases h
+    · rename_i e' he'
+      simp only [Except.error.injEq] at h; subst h
+      exact glycanMassStr_err T mono _ _ he'
+
+theorem glycanCompProforma_err (T : Tables) (s : Str) (e : Err)
+    (h : glycanCompProforma T s = .error e) : ErrOK T e := by
+  unfold glycanCompProforma at h
+  simp only at h
+  split at h
+  · rename_i en hen
+    split at h
+    · rename_i hc
+      simp only [Except.error.injEq] at h; subst h
+      exact .inr (.inl ⟨rfl, en, monoLookup_mem _ _ _ hen, .inr (.inr hc)⟩)
+    · exact .ve (parseChem_err _ _ h)
+  · split at h
+    · rename_i e' he'
+      simp only [Except.error.injEq] at h; subst h
+      exact glycanCompStr_err T _ _ he'
+    · exact .ve (parseChem_err _ _ h)
+
+theorem entryMass_err (T : Tables) (en : Entry) (mono : Bool) (e : Err)
+    (h : entryMass T en mono = .error e) : ErrOK T e := by
+  unfold entryMass at h
+  split at h
+  · cases h
+  · split at h
+    · exact .ve (by err_lit h)
+    · split at h
+      · cases h
+      · rename_i e' he'
+        simp only [Except.error.injEq] at h; subst h
+        exact chemMassStr_err T mono _ _ he'
+
+theorem getMass_err (T : Tables) (db : List Entry) (k : Str) (mono : Bool) (e : Err)
+    (h : getMass T db k mono = .error e) : ErrOK T e := by
+  cases hs : signed k with
+  | true =>
+    rw [getMass_signed' T db k mono hs] at h
+    split at h
+    · cases h
+    · cases h
+    · exact .ve (by err_lit h)
+  | false =>
+    rw [getMass_unsigned T db k mono hs] at h
+    split at h
+    · exact .ve (by err_lit h)
+    · exact entryMass_err T _ mono _ h
+
+theorem getComp_err (db : List Entry) (k : Str) (e : Err) (h : getComp db k = .error e) : VE e := by
+  cases hs : signed k with
+  | true =>
+    rw [getComp_signed' db k hs] at h
+    split at h
+    · err_lit h
+    · err_lit h
+  | false =>
+    rw [getComp_unsigned db k hs] at h
+    split at h
+    · err_lit h
+    · split at h
+      · err_lit h
+      · cases h
+
+theorem dbComp_err (db : List Entry) (ps : List Str) (m : Str) (e : Err) (h : dbComp db ps m = .error e) : VE e := by
+  unfold dbComp at h
+  split at h
+  · rename_i e' he'
+    simp only [Except.error.injEq] at h; subst h
+    exact getComp_err _ _ _ he'
+  · exact parseChem_err _ _ (map_some_error.1 h)
+
+theorem obsMassProforma_err (s : Str) (e : Err) (h : obsMassProforma s = .error e) : VE e := by
+  unfold obsMassProforma at h
+  simp only at h
+  split at h
+  · cases h
+  · cases h
+  · err_lit h
+
+theorem chemMassProforma_err (T : Tables) (s : Str) (mono : Bool) (e : Err)
+    (h : chemMassProforma T s mono = .error e) : ErrOK T e := by
+  unfold chemMassProforma at h
+  simp only at h
+  split at h
+  · cases h
+  · rename_i e' he'
+    simp only [Except.error.injEq] at h; subst h
+    exact chemMassStr_err T mono _ _ he'
+
+theorem massStrBody_err (T : Tables) (m : Str) (mono : Bool) (e : Err)
+    (h : massStrBody T m mono = .error e) : ErrOK T e := by
+  unfold massStrBody at h
+  simp only at h
+  split at h
+  · exact glycanMassProforma_err T _ _ _ h
+  split at h
+  · exact getMass_err T _ _ _ _ (map_some_error.1 h)
+  split at h
+  · exact getMass_err T _ _ _ _ (map_some_error.1 h)
+  split at h
+  · exact getMass_err T _ _ _ _ (map_some_error.1 h)
+  split at h
+  · cases h
+  split at h
+  · exact getMass_err T _ _ _ _ (map_some_error.1 h)
+  split at h
+  · exact getMass_err T _ _ _ _ (map_some_error.1 h)
+  split at h
+  · exact chemMassProforma_err T _ _ _ (map_some_error.1 h)
+  split at h
+  · exact .ve (obsMassProforma_err _ _ (map_some_error.1 h))
+  · cases h
+
+theorem parseModMass_err (T : Tables) (a : Str) (mono : Bool) (e : Err)
+    (h : parseModMass T a mono = .error e) : ErrOK T e := by
+  rw [parseModMass_eq] at h
+  split at h
+  · cases h
+  · unfold massBody at h
+    split at h
+    · cases h
+    · cases h
+    · exact massStrBody_err T _ _ _ h
+
+theorem firstMass_err (T : Tables) (mono : Bool) : ∀ (l : List Str) (e : Err),
+    firstMass T mono l = .error e → ErrOK T e := by
+  intro l
+  induction l with
+  | nil => intro e h; exact .ve (by simp only [firstMass] at h; err_lit h)
+  | cons a r ih =>
+    intro e h
+    simp only [firstMass] at h
+    split at h
+    · rename_i e' he'
+      simp only [Except.error.injEq] at h; subst h
+      exact parseModMass_err T _ _ _ he'
+    · cases h
+    · exact ih _ h
+
+theorem compStrBody_err (T : Tables) (m : Str) (e : Err) (h : compStrBody T m = .error e) : ErrOK T e := by
+  unfold compStrBody at h
+  simp only at h
+  split at h
+  · exact glycanCompProforma_err T _ _ (map_some_error.1 h)
+  split at h
+  · exact .ve (dbComp_err _ _ _ _ h)
+  split at h
+  · exact .ve (dbComp_err _ _ _ _ h)
+  split at h
+  · exact .ve (dbComp_err _ _ _ _ h)
+  split at h
+  · cases h
+  split at h
+  · cases h
+  split at h
+  · exact .ve (dbComp_err _ _ _ _ h)
+  split at h
+  · exact .ve (dbComp_err _ _ _ _ h)
+  split at h
+  · exact .ve (parseChem_err _ _ (map_some_error.1 h))
+  · cases h
+
+theorem parseModComp_err (T : Tables) (a : Str) (e : Err) (h : parseModComp T a = .error e) : ErrOK T e := by
+  rw [parseModComp_eq] at h
+  split at h
+  · cases h
+  · cases h
+  · split at h
+    · cases h
+    · exact compStrBody_err T _ _ h
+
+theorem firstComp_err (T : Tables) : ∀ (l : List Str) (e : Err), firstComp T l = .error e → ErrOK T e := by
+  intro l
+  induction l with
+  | nil => intro e h; exact .ve (by simp only [firstComp] at h; err_lit h)
+  | cons a r ih =>
+    intro e h
+    simp only [firstComp] at h
+    split at h
+    · rename_i e' he'
+      simp only [Except.error.injEq] at h; subst h
+      exact parseModComp_err T _ _ he'
+    · cases h
+    · exact ih _ h
+
 end ModDbGeneric
